@@ -28,8 +28,12 @@ impl VMBinding for VerifVM {
 }
 
 pub struct VObjectModel;
-/// object reference = object start + 8 (so `ref != start`).
+/// object reference = object start + 8 (so `ref != start`), except with `unified_ref`
+/// (the Compressor requires reference == start).
+#[cfg(not(feature = "unified_ref"))]
 pub const OBJECT_REF_OFFSET: usize = 8;
+#[cfg(feature = "unified_ref")]
+pub const OBJECT_REF_OFFSET: usize = 0;
 
 impl ObjectModel<VerifVM> for VObjectModel {
     const GLOBAL_LOG_BIT_SPEC: VMGlobalLogBitSpec = VMGlobalLogBitSpec::side_first();
@@ -39,12 +43,18 @@ impl ObjectModel<VerifVM> for VObjectModel {
         VMLocalForwardingBitsSpec::side_first();
     const LOCAL_MARK_BIT_SPEC: VMLocalMarkBitSpec =
         VMLocalMarkBitSpec::side_after(Self::LOCAL_FORWARDING_BITS_SPEC.as_spec());
+    #[cfg(feature = "has_pinning")]
     const LOCAL_PINNING_BIT_SPEC: VMLocalPinningBitSpec =
         VMLocalPinningBitSpec::side_after(Self::LOCAL_MARK_BIT_SPEC.as_spec());
+    #[cfg(feature = "has_pinning")]
     const LOCAL_LOS_MARK_NURSERY_SPEC: VMLocalLOSMarkNurserySpec =
         VMLocalLOSMarkNurserySpec::side_after(Self::LOCAL_PINNING_BIT_SPEC.as_spec());
+    #[cfg(not(feature = "has_pinning"))]
+    const LOCAL_LOS_MARK_NURSERY_SPEC: VMLocalLOSMarkNurserySpec =
+        VMLocalLOSMarkNurserySpec::side_after(Self::LOCAL_MARK_BIT_SPEC.as_spec());
 
     const OBJECT_REF_OFFSET_LOWER_BOUND: isize = OBJECT_REF_OFFSET as isize;
+    const UNIFIED_OBJECT_REFERENCE_ADDRESS: bool = cfg!(feature = "unified_ref");
 
     fn copy(
         _from: ObjectReference,
